@@ -74,15 +74,15 @@ var registry = []Harness{
 		Unwind: 40,
 		Bound: "count c0 (param 0) set at epoch 0, t0 ticks (param 1), resize to symbolic count 0..param 3 (6 quick, 12 thorough), t1 ticks (param 2, plus one if 0); symbolic queries snapshot(d) d in -1..7, snapshotByEpoch(q), listNodes(q2); one node per published map carrying its epoch; param 4: the epoch whose map is published EMPTY (the node goes offline before that tick; 0: none), before or after the resize and after the ring wrapped"},
 	{Prop: "C06", Pkg: "netmap", Func: "VerifC06Tick", Link: []string{"netmap", "balance", "probe1", "probe2"},
-		Quick: [][]int{{0, 0, 5, 0, 1}, {0, 1, 6, 0, 1}, {1, 0, 1, 1, 0}, {0, 0, 1, 1, 0}, {0, 0, 1, 0, 0}, {1, 0, 1, 0, 0}, {0, 1, 1, 0, 0}, {0, 0, 5, 0, 0}, {0, 0, 6, 0, 0}}, Thorough: [][]int{{0, 0, 5, 0, 1}, {0, 1, 6, 0, 1}, {0, 0, 3, 0, 1}, {0, 0, 7, 0, 1}, {0, 0, 1, 0, 0}, {1, 0, 1, 0, 0}, {2, 0, 1, 0, 0}, {3, 0, 1, 0, 0}, {0, 1, 1, 0, 0}, {1, 1, 1, 0, 0}, {0, 0, 2, 0, 0}, {0, 0, 3, 0, 0}, {0, 0, 4, 0, 0}, {0, 0, 5, 0, 0}, {0, 0, 6, 0, 0}, {0, 0, 7, 0, 0}},
-		Bound: "committee size param2 (1; 5 and 6 in quick, 2..7 in thorough) with the tick signed by a symbolic subset of {Alphabet 2n/3+1 account, committee n/2+1 account}; the two probe subscribers subscribe in the order given by param1 (both orders are run: one contradicts the order of the contract hashes), snapshot count param0 (0: the default 10; 1: the published list is the oldest kept), 3 legacy candidates (Online, Maintenance, Offline->removed), 1 structured, subscribers Balance+probe1+probe2 (probe1 subscribed twice), probe2 refuses one symbolic epoch; two newEpoch invocations with symbolic epochs -2..1000 and symbolic Alphabet signature; param4 = 1: a stand-alone Netmap (Balance, which checks the Alphabet witness itself when it is told the epoch, is not deployed); param3 = 1: every candidate goes offline between the two ticks, the second tick publishes empty maps (with snapshot count 1 into the slot that holds the first tick's list)"},
+		Quick: [][]int{{0, 0, 1, 0, 0, 1}, {0, 0, 5, 0, 1, 0}, {0, 1, 6, 0, 1, 0}, {1, 0, 1, 1, 0, 0}, {0, 0, 1, 1, 0, 0}, {0, 0, 1, 0, 0, 0}, {1, 0, 1, 0, 0, 0}, {0, 1, 1, 0, 0, 0}, {0, 0, 5, 0, 0, 0}, {0, 0, 6, 0, 0, 0}}, Thorough: [][]int{{0, 0, 1, 0, 0, 1}, {1, 0, 1, 0, 1, 1}, {0, 0, 5, 0, 1, 0}, {0, 1, 6, 0, 1, 0}, {0, 0, 3, 0, 1, 0}, {0, 0, 7, 0, 1, 0}, {0, 0, 1, 0, 0, 0}, {1, 0, 1, 0, 0, 0}, {2, 0, 1, 0, 0, 0}, {3, 0, 1, 0, 0, 0}, {0, 1, 1, 0, 0, 0}, {1, 1, 1, 0, 0, 0}, {0, 0, 2, 0, 0, 0}, {0, 0, 3, 0, 0, 0}, {0, 0, 4, 0, 0, 0}, {0, 0, 5, 0, 0, 0}, {0, 0, 6, 0, 0, 0}, {0, 0, 7, 0, 0, 0}},
+		Bound: "committee size param2 (1; 5 and 6 in quick, 2..7 in thorough) with the tick signed by a symbolic subset of {Alphabet 2n/3+1 account, committee n/2+1 account}; the two probe subscribers subscribe in the order given by param1 (both orders are run: one contradicts the order of the contract hashes), snapshot count param0 (0: the default 10; 1: the published list is the oldest kept), 3 legacy candidates (Online, Maintenance, Offline->removed), 1 structured, subscribers Balance+probe1+probe2 (probe1 subscribed twice), probe2 refuses one symbolic epoch; two newEpoch invocations with symbolic epochs -2..1000 and symbolic Alphabet signature; param5 = 1: epochs up to 2^32-1 (from 2^31 on a NeoVM integer takes five bytes); param4 = 1: a stand-alone Netmap (Balance, which checks the Alphabet witness itself when it is told the epoch, is not deployed); param3 = 1: every candidate goes offline between the two ticks, the second tick publishes empty maps (with snapshot count 1 into the slot that holds the first tick's list)"},
 	{Prop: "C07", Pkg: "netmap", Func: "VerifC07Candidates", Link: []string{"netmap"},
 		Quick: [][]int{{2, 0, 1}, {1, 1, 1}, {1, 2, 1}, {1, 0, 3}, {1, 0, 5}}, Thorough: [][]int{{3, 0, 1}, {2, 1, 1}, {2, 2, 1}, {1, 0, 2}, {1, 0, 3}, {1, 0, 4}, {1, 0, 5}, {1, 0, 6}, {1, 0, 7}},
 		Bound: "committee size param2 (1; 3 and 5 in quick, 2..7 in thorough: one size from every residue class modulo 3, where threshold slips hide), fixture param1 (0: empty; 1/2: n0 held by both lists in different states), then k (param0) consecutive operations, each with symbolic method (addPeer/addPeerIR/addNode/updateState/updateStateIR/deleteNode), symbolic target in the pool {n0,n1}, symbolic state in Z, symbolic Alphabet and node signatures; reference model tracks n0"},
 	{Prop: "C08", Pkg: "netmap", Func: "VerifC08Sequence", Link: []string{"netmap"}, Unwind: 60,
-		Quick:    [][]int{{3, 104, 2, 206, 2, 0, 0, 0}, {12, 204, 3, 106, 1, 0, 0, 0}, {4, 206, 1, 0, 0, 0, 0, 0}, {7, 103, 206, 0, 0, 0, 0, 0}, {9, 102, 205, 1, 0, 0, 0, 0}, {17, 103, 106, 2, 0, 0, 0, 0}},
-		Thorough: [][]int{{7, 103, 206, 0, 0, 0, 0, 0}, {9, 102, 205, 1, 0, 0, 0, 0}, {17, 103, 106, 2, 0, 0, 0, 0}, {8, 104, 212, 0, 0, 0, 0, 0}, {6, 203, 206, 0, 0, 0, 0, 0}, {3, 104, 2, 206, 2, 0, 0, 0}, {12, 204, 3, 106, 1, 0, 0, 0}, {4, 206, 1, 0, 0, 0, 0, 0}, {2, 113, 1, 112, 1, 0, 0, 0}, {2, 113, 4, 206, 2, 0, 0, 0}, {5, 203, 2, 205, 3, 0, 0, 0}, {11, 103, 2, 212, 2, 0, 0, 0}, {3, 102, 3, 104, 3, 206, 2, 0}},
-		Bound:    "ANY sequence of steps given by the params (n ticks / a resize to a concrete count / a resize to a symbolic count 1..m; up to three resizes, up to 20 epochs) from the default count 10, against a per-epoch reference model; a resize the contract refuses (including one that faults) must change nothing; symbolic queries snapshot(d), snapshotByEpoch(q), listNodes(q2) at the end; among the sequences: a shrink while the ring index is at least twice the new count, followed at once by a grow (leftover slots of the shrink come back inside the ring)"},
+		Quick:    [][]int{{3, 104, 2, 206, 2, 0, 0, 0}, {12, 204, 3, 106, 1, 0, 0, 0}, {4, 206, 1, 0, 0, 0, 0, 0}, {7, 103, 206, 0, 0, 0, 0, 0}, {9, 102, 205, 1, 0, 0, 0, 0}, {17, 103, 106, 2, 0, 0, 0, 0}, {15, 113, 114, 0, 0, 0, 0, 0}, {15, 113, 1, 114, 0, 0, 0, 0}},
+		Thorough: [][]int{{15, 113, 114, 0, 0, 0, 0, 0}, {15, 113, 1, 114, 0, 0, 0, 0}, {12, 112, 213, 0, 0, 0, 0, 0}, {7, 103, 206, 0, 0, 0, 0, 0}, {9, 102, 205, 1, 0, 0, 0, 0}, {17, 103, 106, 2, 0, 0, 0, 0}, {8, 104, 212, 0, 0, 0, 0, 0}, {6, 203, 206, 0, 0, 0, 0, 0}, {3, 104, 2, 206, 2, 0, 0, 0}, {12, 204, 3, 106, 1, 0, 0, 0}, {4, 206, 1, 0, 0, 0, 0, 0}, {2, 113, 1, 112, 1, 0, 0, 0}, {2, 113, 4, 206, 2, 0, 0, 0}, {5, 203, 2, 205, 3, 0, 0, 0}, {11, 103, 2, 212, 2, 0, 0, 0}, {3, 102, 3, 104, 3, 206, 2, 0}},
+		Bound:    "ANY sequence of steps given by the params (n ticks / a resize to a concrete count / a resize to a symbolic count 1..m; up to three resizes, up to 20 epochs) from the default count 10, against a per-epoch reference model; a resize the contract refuses (including one that faults) must change nothing; symbolic queries snapshot(d), snapshotByEpoch(q), listNodes(q2) at the end; among the sequences: a shrink while the ring index is at least twice the new count, followed at once by a grow (leftover slots of the shrink come back inside the ring), and two grows in a row after the ring has wrapped (the second one has to move a slot the first one left empty: the unchanged tree refuses it)"},
 	{Prop: "C17", Unwind: 64, Pkg: "neofs", Func: "VerifC17Ballots", Link: []string{"neofs", "processing"},
 		Quick:    [][]int{{0, 1, 3, 0}, {0, 3, 4, 0}, {0, 4, 4, 0}, {1, 4, 4, 0}, {2, 4, 3, 0}, {3, 4, 3, 0}, {0, 2, 4, 0}, {1, 2, 4, 0}, {2, 2, 4, 0}, {3, 2, 4, 0}, {3, 2, 3, 2}, {3, 2, 4, 2}},
 		Thorough: [][]int{{0, 1, 4, 0}, {0, 2, 4, 0}, {0, 3, 5, 0}, {0, 4, 5, 0}, {0, 5, 5, 0}, {0, 6, 5, 0}, {0, 7, 5, 0}, {1, 2, 4, 0}, {1, 3, 4, 0}, {1, 4, 5, 0}, {1, 7, 5, 0}, {2, 2, 4, 0}, {2, 3, 4, 0}, {2, 4, 4, 0}, {2, 7, 5, 0}, {3, 2, 4, 0}, {3, 3, 4, 0}, {3, 4, 4, 0}, {3, 7, 5, 0}},
@@ -195,6 +195,9 @@ var registry = []Harness{
 		Bound:    "five linked contracts; committee size param0 in {1,4,7}; V2 blob with version-field length param1 in {0,4,7} and every other byte symbolic; fees (0 included), owner balance symbolic; symbolic Alphabet signature; param2: 1 = named container (alias fee, NNS registration), 2 = named with a domain registered in advance by the committee, 3 = the owner is the first Alphabet node itself (one fee leg is a self-transfer); then the fee is changed and a second container is put"},
 	{Prop: "C04", Unwind: 300, Pkg: "container", Func: "VerifC04ForeignNNS", Link: []string{"nns", "netmap", "balance", "neofsid", "container", "probe4"},
 		Bound: "the system NNS is contract 1, Container is deployed with the address of ANOTHER name service (probe contract mininns) for container names: putNamed, delete, putNamed of another container under the same name; the alias record lives and dies in the configured service"},
+	{Prop: "C04", Pkg: "container", Func: "VerifC04PrefixID", Link: []string{"nns", "netmap", "balance", "neofsid", "container"},
+		Quick: [][]int{{31}, {20}, {1}, {0}},
+		Bound: "one live container (symbolic blob); an id that is the first param0 bytes (31, 20, 1, 0) of its id: get / owner / eACL report not found, delete emits nothing and leaves the storage as it is, the live container stays"},
 	{Prop: "C04", Unwind: 300, Pkg: "container", Func: "VerifC04ExpiredAlias", Link: []string{"nns", "netmap", "balance", "neofsid", "container"},
 		Bound: "a container put under a name whose domain the committee registered with a symbolic lifetime 1..1000 s, a symbolic time span 1..1.1*10^6 ms, then delete: successful whether or not the domain has lapsed, complete (getters, count, alias, one DeleteSuccess) and final (the blob is refused afterwards, plain and named)"},
 	{Prop: "C04", Pkg: "container", Func: "VerifC04Registry", Link: []string{"nns", "netmap", "balance", "neofsid", "container"},
@@ -223,6 +226,8 @@ var registry = []Harness{
 		Bound: "one registered name; records with symbolic 3-byte data for a sub-name one label below it and for a sub-name TWO labels below it (the name in between is not registered), read back through getRecords, getAllRecords, resolve and resolve with a trailing dot; fixed block clock"},
 	{Prop: "C12", Unwind: 300, Pkg: "nns", Func: "VerifC10ExpiredTLD", Link: []string{"nns"},
 		Bound: "the expired-TLD harness of C10: a TLD with a symbolic lifetime 1..1000 s, a name under it with a symbolic lifetime 1..2000 s and one record, a symbolic time span: getRecords, resolve and getAllRecords answer exactly while the name AND its TLD are unexpired (a name may outlive its TLD)"},
+	{Prop: "C12", Unwind: 300, Pkg: "container", Func: "VerifC04ExpiredAlias", Link: []string{"nns", "netmap", "balance", "neofsid", "container"},
+		Bound: "the lapsed-alias harness of C04: the alias TXT record written by the Container contract (its domain string is a NeoVM Buffer) and a second TXT record added by the domain's owner are both listed, in order; decided by the VM during the witness replays (the engine does not track NeoVM item types)"},
 	{Prop: "C12", Pkg: "nns", Func: "VerifC12Limits", Link: []string{"nns"}, Unwind: 100,
 		Quick: [][]int{{17}}, Thorough: [][]int{{16}, {17}, {18}},
 		Bound: "param0 additions of distinct TXT records (one symbolic byte each): exactly the first 16 are accepted; a second CNAME is refused"},
